@@ -54,7 +54,7 @@ def run(c):
     if c.replay:
         harness(c, 1, replay_ops=c.replay.get("replay_ops") or [])
     else:
-        harness(c, 12000 if c.thorough else 1500)
+        harness(c, 40000 if c.thorough else 3000)
 
     def search():
         c.seed += 1000
